@@ -689,6 +689,22 @@ func (sc *specCtx) call(e *ast.CallExpr) Value {
 	case "wrap64":
 		return mInt(Mod(sc.evalInt(arg(0)), NumB(Pow2(64))))
 	}
+	if pd, ok := x.S.Preds[name]; ok {
+		if len(e.Args) != len(pd.Params) {
+			sc.errf(e, "predicate %s takes %d arguments", name, len(pd.Params))
+		}
+		c := *sc
+		c.vars = map[string]Value{}
+		for k, v := range sc.vars {
+			c.vars[k] = v
+		}
+		for i, p := range pd.Params {
+			c.vars[p] = sc.eval(arg(i))
+		}
+		c.body = false
+		c.entry = map[string]Value{}
+		return mBool(c.evalBool(pd.C.Expr))
+	}
 	if g, ok := x.S.Ghosts[name]; ok {
 		t := sc.st.region("ghost."+g.Name, g.Sort)
 		if len(e.Args) != g.NArgs {
